@@ -154,6 +154,9 @@ pub struct WorkSpec {
     pub max_found: usize,
     pub idx_dir: Option<String>,
     pub oplog: Option<String>,
+    /// run indexes to leave out (they crash the process on this tree)
+    #[serde(default)]
+    pub skip: Vec<u64>,
 }
 
 #[derive(Clone, Debug, Serialize, Deserialize, Default)]
@@ -189,6 +192,12 @@ fn stats_maps(s: &Stats) -> (BTreeMap<String, u64>, BTreeMap<String, u64>) {
 
 /// Executed in the child process.
 pub fn run_worker(spec: &WorkSpec) -> Result<WorkOut, String> {
+    if !spec.skip.is_empty() {
+        crate::core::set_skip_runs(spec.skip.clone());
+    }
+    if let Some(d) = &spec.idx_dir {
+        crate::core::set_found_file(&Path::new(d).join("found"));
+    }
     match spec.layer.as_str() {
         "L1" => {
             let def = l1::world_by_name(&spec.name).ok_or_else(|| format!("unknown world {}", spec.name))?;
@@ -409,6 +418,7 @@ pub fn cmd_replay_inproc(path: &str) -> i32 {
             max_found: 1,
             idx_dir: None,
             oplog: None,
+            skip: vec![],
         };
         return match run_worker(&spec) {
             Ok(w) => {
@@ -871,6 +881,7 @@ pub fn cmd_check(root: &Path, prop: &str, tier: &str, seed: u64, threads: usize)
             vec![("release", 0, total)]
         };
         let mut crash_skips = 0u32;
+        let mut skip_runs: Vec<u64> = Vec::new();
         let mut item_runs = 0u64;
         let mut item_nontrivial = 0u64;
         let mut item_states = 0u64;
@@ -896,6 +907,7 @@ pub fn cmd_check(root: &Path, prop: &str, tier: &str, seed: u64, threads: usize)
                     max_found: 64,
                     idx_dir: Some(idx_dir.to_string_lossy().to_string()),
                     oplog: None,
+                    skip: skip_runs.clone(),
                 };
                 let out = match spawn_worker(&bin, &spec) {
                     ChildEnd::Ok(o) => o,
@@ -905,9 +917,29 @@ pub fn cmd_check(root: &Path, prop: &str, tier: &str, seed: u64, threads: usize)
                     }
                     ChildEnd::Crashed(how) => {
                         println!("note: a simulation worker died ({}) in {} {}", how, item.layer, item.name);
+                        // violating runs the worker had noted before it died: re-execute them alone
+                        let noted: Vec<u64> = std::fs::read_to_string(idx_dir.join("found")).unwrap_or_default().lines().filter_map(|l| l.trim().parse().ok()).collect();
+                        let mut rescued: Vec<FoundOut> = Vec::new();
+                        if prop != "C01" {
+                            let mut seen: Vec<u64> = Vec::new();
+                            for r in noted {
+                                if seen.contains(&r) || seen.len() >= 4 {
+                                    continue;
+                                }
+                                seen.push(r);
+                                let one = WorkSpec { first_run: r, runs: 1, threads: 1, idx_dir: None, skip: vec![], ..spec.clone() };
+                                if let ChildEnd::Ok(o) = spawn_worker(&bin, &one) {
+                                    rescued.extend(o.found);
+                                }
+                            }
+                        }
+                        if !rescued.is_empty() {
+                            println!("note: {} violating run(s) noted by the worker before it died were re-executed alone", rescued.len());
+                            WorkOut { found: rescued, ..Default::default() }
+                        } else {
                         crash_skips += 1;
-                        if prop != "C01" && crash_skips > 3 {
-                            println!("note: more than 3 crashing runs in {} {}: the rest of this item is skipped (crashes are a C01 matter)", item.layer, item.name);
+                        if prop != "C01" && crash_skips > 6 {
+                            println!("note: more than 6 crashing runs in {} {}: the rest of this item is skipped (crashes are a C01 matter)", item.layer, item.name);
                             break;
                         }
                         match triage_crash(root, &bin, &spec, &how, prop == "C01") {
@@ -920,18 +952,16 @@ pub fn cmd_check(root: &Path, prop: &str, tier: &str, seed: u64, threads: usize)
                                 }
                                 println!("note: run {} of {} {} crashes the process; that is a C01 matter (replay {}), skipped here", run, item.layer, item.name, path.display());
                                 *agg.notes.entry("C01:process-crash".into()).or_insert(0) += 1;
-                                let done = run + 1 - first_run;
-                                if done >= remaining {
-                                    break;
-                                }
-                                remaining -= done;
-                                first_run = run + 1;
+                                // the batch died with everything its other threads had found: run the
+                                // same range again without the crashing run
+                                skip_runs.push(run);
                                 continue;
                             }
                             None => {
                                 eprintln!("harness error: a worker died ({}) and the crash could not be isolated", how);
                                 return 2;
                             }
+                        }
                         }
                     }
                 };
@@ -1136,6 +1166,7 @@ pub fn cmd_selftest_determinism(runs: u64, seed: u64) -> i32 {
                     max_found: 0,
                     idx_dir: None,
                     oplog: None,
+            skip: vec![],
                 };
                 match spawn_worker(bin, &spec) {
                     ChildEnd::Ok(o) => sigs.push((o.runs, o.ops, o.log_hash_xor)),
@@ -1606,7 +1637,7 @@ pub fn cmd_selftest_probes(seed: u64) -> i32 {
     ];
     let mut missing = 0;
     for (world, names) in expect {
-        let spec = WorkSpec { layer: "L1".into(), name: world.to_string(), seed, first_run: 0, runs: 100_000, gate: "none".into(), threads: 16, over: Cfg::new(), stop_on_first: false, max_found: 0, idx_dir: None, oplog: None };
+        let spec = WorkSpec { layer: "L1".into(), name: world.to_string(), seed, first_run: 0, runs: 100_000, gate: "none".into(), threads: 16, over: Cfg::new(), stop_on_first: false, max_found: 0, idx_dir: None, oplog: None, skip: vec![] };
         match spawn_worker(&self_exe(), &spec) {
             ChildEnd::Ok(o) => {
                 for n in *names {
